@@ -55,6 +55,8 @@ def handleX (op : String) (args : List String) : Option String :=
   | "giant8", [_, _] => some "ok native"
   | "giantw", [_, _] => some "ok native"
   | "gcreate", [_, _] => some "ok native"
+  -- round 5: `gcreate8 COUNT SHAPE ndmin` — Array::create on more than 2^24 u8 elements, judged by the same validated reference
+  | "gcreate8", [_, _, _] => some "ok native"
   -- `wrap A steps` / `wrapcreate A shape ndmin`: targets whose product equals the count only modulo 2^64; the model's answer (the
   -- product is a `Nat`, so they are refused); the harness accepts any refusal of the crate and no `ok`
   | "wrap", [a, steps] => handle "chain" [a, steps]
